@@ -116,6 +116,14 @@ CLAIMED = {
         "design_ref": "DESIGN.md §8 C01",
         "technique": "Lean 4 theorems (independent Reach spec vs flattened atoms, induction on fuel) + T0 kind obligations + T1 correspondence on ASTs + real-bash jail execution (T2)",
     },
+    "C02": {
+        "text": "Proof (Lean 4): in an approved tree every redirection in every evaluated position (simple commands, groups, subshells, loops, conditionals, case, [[ ]], (( )), nested substitutions - via the Reach specification of C01) whose operator "
+        "writes and whose target is not a non-file sink is granted by a redirect rule whose decision is allow (write_redirect_granted), that rule is the last one matching the file the target denotes (R3, C09), a later ask/deny rule overrides, and a handler CLI is "
+        "allowed only if every write target it reports is granted (tool_targets_granted). Independent operator/sink tables are checked against the tables regenerated from the source (op_table_complete/sound, fd-prefix regex). "
+        "Not proved: which directory bash is in (finding F02b) and what the tools really write - validated by executing every approved generated command under real bash with real tee/sort/sed/awk/iconv in a jail and diffing the file tree against match_redirect on real paths.",
+        "design_ref": "DESIGN.md §8 C02",
+        "technique": "Lean 4 theorems (coverage of redirect atoms, R3, tool-target loop) + T0 operator/sink obligations + T1 correspondence in config mode + real-bash/real-tool file-tree diff (T2)",
+    },
 }
 
 PENDING_REASON = "check not built yet in this round (DESIGN.md §10 build order); no technique other than Lean proof + correspondence is substituted"
